@@ -31,7 +31,7 @@ def one(name):
         shutil.rmtree(scratch, ignore_errors=True)
 
 prefix = sys.argv[1] if len(sys.argv) > 1 else ""
-names = sorted(n for n in os.listdir(os.path.join(VERIF, "twins")) if n.startswith(prefix))
+names = sorted(n for n in os.listdir(os.path.join(VERIF, "twins")) if n.startswith(prefix) and os.path.isdir(os.path.join(VERIF, "twins", n)))
 with ProcessPoolExecutor(max_workers=12) as ex:
     res = list(ex.map(one, names))
 tp = sum(r[1] for r in res); tb = sum(len(r[2]) for r in res)
